@@ -53,6 +53,10 @@ const (
 	WSAENETUNREACH  = 10051
 )
 
+// ErrAddressTypeNotSupported
+// a request whose address type we cannot read (it is answered with AddressTypeNotSupported)
+var ErrAddressTypeNotSupported = errors.New("address type not supported")
+
 type SocksHeader struct {
 	Version  byte
 	Command  byte
@@ -210,7 +214,7 @@ func ReadSocksHeader(conn net.Conn) (SocksHeader, error) {
 			return header, errors.New("failed to read the IPv6 address")
 		}
 	} else {
-		return header, errors.New(fmt.Sprint("socks ATYP (%d) is not valid", header.ATYP))
+		return header, fmt.Errorf("%w: socks ATYP (%d) is not valid", ErrAddressTypeNotSupported, header.ATYP)
 	}
 
 	PortArr := make([]byte, 2)
